@@ -901,6 +901,12 @@ func (m *monitor) evaluate(ctx context.Context, dir string, cs Case) Outcome {
 		inproc = m.atomsOf(ctx, filepath.Join(dir, "shrink"), cs.Pair)
 	}
 	for _, atom := range o.Atoms {
+		if strings.HasPrefix(atom, "determinism|") {
+			// a nondeterministic output cannot be shrunk with a deterministic predicate: the atom is the key
+			c.Violation(c.Prop+"|"+atom, fmt.Sprintf("%s: %s (database %q)", leg, atom, cs.Name), cs,
+				map[string]any{"atoms": o.Atoms, "built": o.Built, "detail": o.Detail})
+			continue
+		}
 		viaCLI := cs.CLI && !slices.Contains(inproc, atom)
 		key, min, runs := m.keyFor(ctx, dir, cs, atom, viaCLI)
 		c.Count("shrink-runs", int64(runs))
